@@ -482,7 +482,10 @@ Lemma cmp_pair_loop_eq : forall h f lcar lcdr rcar rcdr,
   match o1 with
   | Ok true =>
       match heap_get h lcdr, heap_get h rcdr with
-      | Ok l', Ok r' => let '(d2, o2) := cmp_pair_loop_d prof h s f l' r' in (nmax d1 d2, o2)
+      | Ok l', Ok r' =>
+          if is_vpair l' && is_vpair r'
+          then let '(d2, o2) := cmp_pair_loop_d prof h s f l' r' in (nmax d1 d2, o2)
+          else let '(d2, o2) := equal_d prof h s f (VPtr lcdr) (VPtr rcdr) in (nmax d1 d2, o2)
       | Ok _, bad => (d1, do _ <- bad; Ok false)
       | bad, _ => (d1, do _ <- bad; Ok false)
       end
@@ -498,7 +501,9 @@ Proof.
   destruct (equal_d prof h s f (VPtr lcar) (VPtr rcar)) as [d1 o1]. cbn [fst].
   destruct o1 as [[|]| | |]; cbn [fst]; try lia.
   destruct (heap_get h lcdr) as [l'| | |]; destruct (heap_get h rcdr) as [r'| | |]; cbn [fst]; try lia.
-  destruct (cmp_pair_loop_d prof h s f l' r') as [d2 o2]. cbn [fst]. unfold nmax. lia.
+  destruct (is_vpair l' && is_vpair r').
+  - destruct (cmp_pair_loop_d prof h s f l' r') as [d2 o2]. cbn [fst]. unfold nmax. lia.
+  - destruct (equal_d prof h s f (VPtr lcdr) (VPtr rcdr)) as [d2 o2]. cbn [fst]. unfold nmax. lia.
 Qed.
 
 (* the two nests sit at odd / even addresses: level i at 2i-1 and 2i *)
